@@ -90,6 +90,11 @@ func judgeC06(c C06Case) *Fail {
 			}
 		}
 	}
+	if len(v.Chose) >= 65 {
+		st.inc("C06:alternatives>=65")
+	} else if len(v.Chose) >= 7 {
+		st.inc("C06:alternatives 7-16")
+	}
 	if c.Between != "" {
 		st.inc("C06:other-request-in-between")
 		decide([]byte(c.Between))
